@@ -1049,7 +1049,7 @@ Section WithCfg.
   Definition macro_repeat (v : nat) (n : Z) : M unit :=
     r <- gen_elem [] ;;
     let e := fst r in
-    try_finally
+    on_unwind
       (with_capacity v n ;;;
        building v
          ((fix go (k : nat) (i : Z) : M unit :=
@@ -1060,7 +1060,10 @@ Section WithCfg.
                       slot_write (padd d i) c ;;; go k (i + 1)
              end) (small n) 0 ;;;
           if 0 <? n then set_len v n else ret tt))
-      (drop_elem e).
+      (drop_elem e) ;;;
+    (* the block's value has been moved to the result place when `elem` goes out of scope: if its
+       destructor panics there, the result vector is leaked, not dropped *)
+    on_unwind (drop_elem e) (set_handle v None).
 
   Fixpoint push_fresh (k : nat) (v : nat) : M unit :=
     match k with
